@@ -10,6 +10,7 @@
 -/
 import EasyNet.Drv.Framing
 import EasyNet.Drv.ExcFlow
+import EasyNet.Drv.Endpoint
 import EasyNet.Drv.Senders
 import EasyNet.Drv.TlsSend
 import EasyNet.Drv.StreamServer
@@ -25,6 +26,7 @@ open EasyNet.Drv
 def runners : List (String → List String → List String → Option (List String)) :=
   [ runFraming
   , runExcFlow
+  , runEndpoint
   , runSenders
   , runTls
   , runStreamServer
